@@ -187,6 +187,11 @@ pub fn suite_c01(ctx: &mut Ctx) {
         let (pr, ln) = (ctx.q(300, 5000), 40);
         dataflow(ctx, ty, &ops, pr, ln, &lat);
     }
+    // differential screening (selection only; see screen.rs)
+    for ty in [&P16T, &P32T] {
+        let k = ctx.q(400_000, 20_000_000);
+        crate::screen::screen_fixed(ctx, ty, &crate::screen::ARITH, k);
+    }
 }
 
 /// selftest trace: dataflow programs over operations that are exercised by every check
@@ -275,6 +280,11 @@ pub fn suite_c05(ctx: &mut Ctx) {
         let pr = ctx.q(200, 4000);
         dataflow(ctx, ty, &ops, pr, 30, &lat);
     }
+    // differential screening (selection only; see screen.rs)
+    for ty in [&P16T, &P32T] {
+        let k = ctx.q(600_000, 30_000_000);
+        crate::screen::screen_fixed(ctx, ty, &crate::screen::FUSED, k);
+    }
 }
 
 pub fn suite_c06(ctx: &mut Ctx) {
@@ -332,6 +342,11 @@ pub fn suite_c06(ctx: &mut Ctx) {
         for &a in gen::specials(ty.n).iter() {
             ctx.call(ty, "sqrt", "nt", &[a]);
         }
+    }
+    // differential screening (selection only; see screen.rs)
+    for ty in [&P16T, &P32T] {
+        let k = ctx.q(300_000, 20_000_000);
+        crate::screen::screen_fixed(ctx, ty, &["sqrt"], k);
     }
 }
 
